@@ -8,7 +8,7 @@ From PM Require Import Model.Prelude Model.Domain Model.Constraint Model.BindAll
   Model.DomString Model.DomPGKeys Model.DomPG Model.DomPGPattern Spec.TopoSpec
   Proofs.SchemeProofs Proofs.PGTreeProofs Proofs.PGLawful Proofs.PGEmbed Proofs.PGComplete Proofs.PGEmbedComplete
   Proofs.SingleComplete Proofs.PGSingleComplete Proofs.PGWalkEmbed
-  Model.Automaton Model.Traversal Cert.WfCheck Cert.WinCheck Cert.PGCert Proofs.WfSound Proofs.MatrixRun Proofs.PGRunComplete.
+  Model.Automaton Model.Traversal Cert.WfCheck Cert.WinCheck Cert.PGCert Proofs.WfSound Proofs.MatrixRun Proofs.PGRunComplete Proofs.PGRunSingleRoot.
 Local Open Scope N_scope.
 
 Definition pg_good_pattern (P : pghost) (root : N) (cs : list pgconstraint) (nk : list (N * pgkey)) : bool :=
@@ -156,4 +156,84 @@ Proof.
       apply (MatrixRun.uniq_in_gen pgkey_eqb pgkey_eqb_eq). apply in_flat_map. exists (N.of_nat i, keys). auto. }
     apply in_map_iff in Hik as [[u k'] [Ek Hin]]. cbn [snd] in Ek. subst k'.
     exists u. split; [exact Hin|]. rewrite Eq. now apply pgget_bind_of.
+Qed.
+
+(** ** sets of single-root patterns (C02, run level, the general positive statement):
+    every key of the automaton hangs off Root(0) — any number of patterns, as long
+    as none needs a second index root — and the keys recorded for pattern i are keys
+    of the good pattern P.  Then every embedding of P is reported. *)
+Definition aut_single_root (A : automaton pgkey pgpred) : bool :=
+  forallb (fun st => forallb srk (useful_keys pg_dom st)) (au_states A).
+
+Definition match_keys_in (nk : list (N * pgkey)) (A : automaton pgkey pgpred) (i : N) : bool :=
+  forallb (fun st => forallb (fun pk : N * list pgkey =>
+                                negb (N.eqb (fst pk) i) || forallb (fun k => memb pgkey_eqb k (map snd nk)) (snd pk))
+                             (a_matches st)) (au_states A).
+
+Lemma resolve_args_ext (m1 m2 : pgmap) args : (forall k, In k args -> pgget m1 k = pgget m2 k) ->
+  resolve_args pg_dom m1 args = resolve_args pg_dom m2 args.
+Proof.
+  induction args as [|k ks IH]; intros He; [reflexivity|]. cbn [resolve_args].
+  change (mget pg_dom m1 k) with (pgget m1 k). change (mget pg_dom m2 k) with (pgget m2 k).
+  rewrite (He k (or_introl eq_refl)). destruct (pgget m2 k); [|reflexivity].
+  rewrite IH; [reflexivity|]. intros x Hx. apply He. now right.
+Qed.
+
+Theorem pg_run_reports_embedding_single_root_sets (P : pghost) (root : N) cs nk (H : pghost) (f : N -> N)
+        (A : automaton pgkey pgpred) rk ids css pres i fuel ms :
+  pg_cvec_full P root = Ok (cs, nk) -> lines_sound P root = true -> keys_distinct nk = true ->
+  pg_good_pattern P root cs nk = true -> pg_host_wfb P = true -> pg_host_wfb H = true ->
+  pg_embedding P H root nk f ->
+  wf_check pg_dom A rk ids = true -> cert_complete pg_entails pg_refutes A css pres = true ->
+  nth_error css i = Some cs -> nth_error pres i = Some true ->
+  aut_single_root A = true -> match_keys_in nk A (N.of_nat i) = true ->
+  run pg_dom fuel A H = Ok ms ->
+  exists st keys b, In st (au_states A) /\ In (N.of_nat i, keys) (a_matches st) /\ In (N.of_nat i, b) ms
+    /\ forall k, In k keys -> exists u, In (u, k) nk /\ pgget b k = Some (f u).
+Proof.
+  intros CV Hls Hkd Hg HwP HwH He W CC Hcs Hpr Hsr Hmk R.
+  pose proof (links_le P H root nk f HwP He) as Hlen.
+  destruct He as [Hl [Hi Hlive]].
+  unfold pg_good_pattern in Hg. apply andb_true_iff in Hg as [Hg G4]. apply andb_true_iff in Hg as [Hg G3]. apply andb_true_iff in Hg as [G1 G2].
+  rewrite forallb_forall in G1, G2, G3.
+  assert (Hkd' : NoDup (map snd nk)).
+  { unfold keys_distinct in Hkd. apply andb_true_iff in Hkd as [Hk1 _]. now apply (nodupb_NoDup pgkey_eqb pgkey_eqb_eq). }
+  assert (Hsat : forall c, In c cs -> pgval H (bind_of f nk) c = true).
+  { apply (pg_embedding_satisfies P root H f cs nk CV Hls Hkd HwH Hl).
+    intros u k u' k' H1 H2 Hne E. apply Hne. apply Hi; [right|right|exact E].
+    - apply in_map_iff. exists (u, k). auto.
+    - apply in_map_iff. exists (u', k'). auto. }
+  set (KL := flat_map (useful_keys pg_dom) (au_states A) ++ map snd nk).
+  (* what the host offers for the keys of the pattern: the images of their nodes *)
+  assert (Hmv : forall u k, In (u, k) nk -> mv H (f root) k = Some (f u)).
+  { intros u k Hin. specialize (G1 (u, k) Hin). cbn [fst snd] in G1. destruct k as [j|r0 p len]; cbn [mv].
+    - apply andb_true_iff in G1 as [E1 E2]. apply N.eqb_eq in E1, E2. subst. reflexivity.
+    - apply andb_true_iff in G1 as [E1 G1]. apply N.eqb_eq in E1. subst r0. rewrite N.eqb_refl.
+      destruct (nth_error (walk_nodes P root p) (N.to_nat len)) as [n|] eqn:En; [|discriminate]. apply N.eqb_eq in G1. subst n.
+      apply (walk_nodes_embed P H f (pg_host_wfb_sound H HwH) Hl); [|exact Hlen|exact En].
+      intros a b0 Ha Hb0. apply Hi; now left. }
+  assert (Hsat' : forall c, In c cs -> pgval H (mst H (f root) KL) c = true).
+  { intros c Hc. rewrite <- (Hsat c Hc). unfold pgval. f_equal.
+    rewrite (resolve_args_ext (mst H (f root) KL) (bind_of f nk) (cargs c)); [reflexivity|].
+    intros k Hk. specialize (G2 c Hc). rewrite forallb_forall in G2. specialize (G2 k Hk).
+    apply (memb_in pgkey_eqb pgkey_eqb_eq) in G2. pose proof G2 as G2'.
+    apply in_map_iff in G2 as [[u k'] [Ek Hin]]. cbn [snd] in Ek. subst k'.
+    rewrite (mst_get H (f root) KL k); [|unfold KL; apply in_or_app; now right].
+    rewrite (Hmv u k Hin). symmetry. now apply pgget_bind_of. }
+  pose proof (wf_check_sound pg_dom pg_dom_eq A rk ids W) as HWF.
+  pose proof (pg_cert_complete_sound A css pres i cs H (mst H (f root) KL) CC Hcs Hpr Hsat') as Hacc.
+  destruct (run_reports2 H (f root) Hlive KL A ids fuel ms (N.of_nat i) HWF) as [st [keys [b [Hst [Hpk [Hb Hk]]]]]]; auto.
+  - intros st k Hst Hk. split.
+    + unfold aut_single_root in Hsr. rewrite forallb_forall in Hsr. specialize (Hsr st Hst). rewrite forallb_forall in Hsr. now apply Hsr.
+    + unfold KL. apply in_or_app. left. apply in_flat_map. exists st. auto.
+  - intros st keys Hst Hpk k Hk. unfold match_keys_in in Hmk. rewrite forallb_forall in Hmk. specialize (Hmk st Hst).
+    rewrite forallb_forall in Hmk. specialize (Hmk _ Hpk). cbn [fst snd] in Hmk. rewrite N.eqb_refl in Hmk. cbn [negb orb] in Hmk.
+    rewrite forallb_forall in Hmk. specialize (Hmk k Hk). apply (memb_in pgkey_eqb pgkey_eqb_eq) in Hmk.
+    apply in_map_iff in Hmk as [[u k'] [Ek Hin]]. cbn [snd] in Ek. subst k'. rewrite (Hmv u k Hin). discriminate.
+  - exists st, keys, b. split; [exact Hst|]. split; [exact Hpk|]. split; [exact Hb|].
+    intros k Hk'. unfold match_keys_in in Hmk. rewrite forallb_forall in Hmk. specialize (Hmk st Hst).
+    rewrite forallb_forall in Hmk. specialize (Hmk _ Hpk). cbn [fst snd] in Hmk. rewrite N.eqb_refl in Hmk. cbn [negb orb] in Hmk.
+    rewrite forallb_forall in Hmk. specialize (Hmk k Hk'). apply (memb_in pgkey_eqb pgkey_eqb_eq) in Hmk.
+    apply in_map_iff in Hmk as [[u k'] [Ek Hin]]. cbn [snd] in Ek. subst k'.
+    exists u. split; [exact Hin|]. rewrite (Hk k Hk'). now apply Hmv.
 Qed.
